@@ -48,42 +48,42 @@ def tx_case(cfg, query, body):
                                        "N" if body is None else (",".join(vf.hexs(c) for c in body) if body else "."))
 
 
+BATCH = 1500000
+
+
 def gen_run_exhaustive(ctx):
     """Every string over ALPHA up to L x the whole string + EVERY single cut position (incl. the two
     cuts that produce an empty chunk). Up to length L-1 under every configuration; length L under a
-    rotating subset. Returns (cases, groups): groups = list of (index_of_whole_case, [indices of its cuts])."""
+    rotating subset; thorough: length 7 under one configuration each. Yields batches (cases, groups):
+    groups = list of (index_of_whole_case, [indices of its cuts])."""
     L = 6 if ctx.thorough() else 5
-    per_long = 8 if ctx.thorough() else 4
+    per_long = 4
     cases, groups = [], []
     n = 0
-    for s in vf.strings_upto(ALPHA, L):
-        n += 1
-        if len(s) < L:
-            cfgs = CFGS
-        else:
-            cfgs = [CFGS[(n * 7 + j * 13) % len(CFGS)] for j in range(per_long)]
-        for cfg in cfgs:
-            w = len(cases)
-            cases.append(run_case(cfg, [s]))
-            cuts = []
-            for cut in range(0, len(s) + 1):
-                cuts.append(len(cases))
-                cases.append(run_case(cfg, [s[:cut], s[cut:]]))
-            groups.append((w, cuts))
-    if ctx.thorough():
-        # length 7 under two configurations each
-        for s in itertools.product(ALPHA, repeat=7):
+    lens = list(range(L + 1)) + ([7] if ctx.thorough() else [])
+    for l in lens:
+        for s in itertools.product(ALPHA, repeat=l):
             s = bytes(s)
             n += 1
-            for cfg in (CFGS[n % len(CFGS)], CFGS[(n * 5 + 17) % len(CFGS)]):
+            if l < L:
+                cfgs = CFGS
+            elif l == L:
+                cfgs = [CFGS[(n * 7 + j * 13) % len(CFGS)] for j in range(per_long)]
+            else:
+                cfgs = [CFGS[(n * 11 + 5) % len(CFGS)]]
+            for cfg in cfgs:
                 w = len(cases)
                 cases.append(run_case(cfg, [s]))
                 cuts = []
-                for cut in range(1, len(s)):
+                for cut in range(0, len(s) + 1):
                     cuts.append(len(cases))
                     cases.append(run_case(cfg, [s[:cut], s[cut:]]))
                 groups.append((w, cuts))
-    return cases, groups
+            if len(cases) >= BATCH:
+                yield cases, groups
+                cases, groups = [], []
+    if cases:
+        yield cases, groups
 
 
 def rand_chunks(r, s):
@@ -147,6 +147,16 @@ def gen_run_random(ctx):
             cuts.append(len(cases))
             cases.append(run_case(cfg, rand_chunks(r, s), sep, dec))
         groups.append((w, cuts))
+    # API misuse stays deterministic: finalize in the middle, data after finalize (no segmentation claim)
+    for i in range(n // 6):
+        s = rand_string(r, 30)
+        chs = [vf.hexs(c) for c in rand_chunks(r, s)]
+        for _ in range(r.randint(1, 2)):
+            chs.insert(r.randint(0, len(chs)), "F")
+        cases.append("urlenc\trun\t%s\td\td\t%s" % (r.choice(CFGS), ",".join(chs)))
+    for s in vf.strings_upto([0x61, 0x3d, 0x26], 3):
+        for cut in range(len(s) + 1):
+            cases.append("urlenc\trun\t%s\td\td\t%s,F,%s" % (CFGS[0], vf.hexs(s[:cut]), vf.hexs(s[cut:])))
     # no chunk at all, only empty chunks
     for cfg in CFGS[:4]:
         w = len(cases)
@@ -229,7 +239,7 @@ def gen_tx(ctx):
 
 def case_chunks(case):
     f = case.split("\t")
-    if f[1] != "run":
+    if f[1] != "run" or "F" in f[5].split(","):
         return None
     return [] if f[5] == "." else [bytes.fromhex(h) if h != "-" else b"" for h in f[5].split(",")]
 
@@ -380,6 +390,12 @@ def py_ref(cfgspec, s):
     return (" ".join(pairs) if pairs else "none") + " | 0 0"
 
 
+def broken_file(log):
+    import re
+    m = re.search(r'File "\./([^"]+)", line (\d+), characters [^\n]*\nError', log)
+    return "%s:%s" % (m.group(1), m.group(2)) if m else vf.broken_theorem(log)
+
+
 def search_with_text_reference(ctx, cases, impl):
     for c, o in zip(cases, impl):
         f = c.split("\t")
@@ -394,28 +410,31 @@ def search_with_text_reference(ctx, cases, impl):
 def check(ctx):
     pr = vf.proof_step(ctx, "Properties_C15")
     keys = set()
-    suites = []
-    c1, g1 = gen_run_exhaustive(ctx)
-    suites.append(("S-urlenp-exhaustive", c1, g1))
-    c2, g2 = gen_run_random(ctx)
-    suites.append(("S-urlenp-random", c2, g2))
-    suites.append(("S-dec", gen_dec(ctx), []))
-    suites.append(("S-urlenc-tx", gen_tx(ctx), []))
+    suites = [("S-urlenp-exhaustive", gen_run_exhaustive(ctx)),
+              ("S-urlenp-random", [gen_run_random(ctx)]),
+              ("S-dec", [(gen_dec(ctx), [])]),
+              ("S-urlenc-tx", [(gen_tx(ctx), [])])]
     nseg = 0
     kept = []
-    for name, cases, groups in suites:
+    batches = ((name, k, cases, groups) for name, it in suites for k, (cases, groups) in enumerate(it))
+    reported = {}
+    for name, bk, cases, groups in batches:
+        if reported.get(name, 0) >= 2:
+            continue            # two minimised inputs per suite are enough; skip its remaining batches
         impl, model, crash = vf.correspond(ctx, name, cases)
         if crash:
             vf.report_crash(ctx, name, cases, crash)
             continue
-        kept.append((cases, impl))
+        if len(kept) < 2:
+            kept.append((cases, impl))
         mm = vf.first_mismatches(impl, model, limit=5)
-        ctx.cov["suites"][name]["mismatches"] = len(mm)
+        ctx.cov["suites"][name]["mismatches"] = ctx.cov["suites"][name].get("mismatches", 0) + len(mm)
         for i in mm[:2]:
             c = shrink(ctx, cases[i], disagree_many)
             ii, mo, _ = vf.correspond(ctx, "shrunk", [c])
             ctx.cov["evaluations"] -= 1
-            vf.violation(ctx, "%s-%d" % (name, i), {
+            reported[name] = reported.get(name, 0) + 1
+            vf.violation(ctx, "%s-%d-%d" % (name, bk, i), {
                 "kind": "implementation-differs-from-reference", "suite": name, "case": c, "input": describe(c),
                 "implementation": ii[0] if ii else "?", "reference_model": mo[0] if mo else "?",
                 "theorem": "Properties_C15.v C15_chunking / C15_chunking_full (total: model = reference split/decoding for every chunking), "
@@ -430,7 +449,7 @@ def check(ctx):
                     break
             if len(segbad) >= 2:
                 break
-        ctx.cov["suites"][name]["segmentation_failures"] = len(segbad)
+        ctx.cov["suites"][name]["segmentation_failures"] = ctx.cov["suites"][name].get("segmentation_failures", 0) + len(segbad)
         for w, j in segbad[:1]:
             if any(cases[j] == json.load(open(p)).get("case") for p, _ in ctx.violations):
                 continue
@@ -440,7 +459,8 @@ def check(ctx):
             whole = run_case(f[2], [b"".join(ch)], f[3], f[4])
             ii, _, _ = vf.correspond(ctx, "shrunk", [c, whole])
             ctx.cov["evaluations"] -= 2
-            vf.violation(ctx, "%s-seg-%d" % (name, j), {
+            reported[name] = reported.get(name, 0) + 1
+            vf.violation(ctx, "%s-seg-%d-%d" % (name, bk, j), {
                 "kind": "chunking-changes-the-result", "suite": name, "case": c, "input": describe(c),
                 "implementation_chunked": ii[0] if ii else "?", "implementation_whole": ii[1] if len(ii) > 1 else "?",
                 "theorem": "Properties_C15.v C15_split_invariant"})
@@ -450,9 +470,10 @@ def check(ctx):
             shape = "".join("e" if kv in ("-=-",) else "k" if kv.endswith("=-") else "v" if kv.startswith("-=") else "p"
                             for kv in o.split(" | ")[0].split(" ")[:6]) if f[1] == "run" else ""
             keys.add((f[1], f[3] if f[1] == "dec" else f[2], tail, shape))
-        mid = len(cases) // 2
-        vf.sample(ctx, {"suite": name, "case": cases[mid], "result": model[mid] if model else None})
-        vf.sample(ctx, {"suite": name, "case": cases[-1], "result": model[-1] if model else None})
+        if bk == 0:
+            mid = len(cases) // 2
+            vf.sample(ctx, {"suite": name, "case": cases[mid], "result": model[mid] if model else None})
+            vf.sample(ctx, {"suite": name, "case": cases[-1], "result": model[-1] if model else None})
     if not pr["ok"] and not ctx.violations:
         # a proof obligation broke (e.g. a regenerated default changed) and model == code: look for an input on which
         # the implementation contradicts the property text itself
@@ -462,7 +483,7 @@ def check(ctx):
                 vf.violation(ctx, "text-reference", {
                     "kind": "implementation-differs-from-property-text", "case": hit[0], "input": describe(hit[0]),
                     "implementation": hit[1], "property_text_reference": hit[2],
-                    "theorem_file": vf.broken_theorem(pr["log"]),
+                    "theorem_file": broken_file(pr["log"]),
                     "note": "the Coq proof no longer goes through for the regenerated model; this input is well-formed "
                             "(every % followed by two hex digits, no NUL) and the reported pairs are not the split/decoded ones"})
                 break
@@ -478,7 +499,7 @@ def check(ctx):
             "strings over {%% u U 0 f z} up to length %d, every %%HH over hex/non-hex digit pairs, a sweep of %%uHHHH code points, the out-of-enum "
             "handling value. S-urlenc-tx: query and body through htp_ch_urlencoded_callback_* into tx->request_params. The segmentation oracle "
             "(chunked result == whole result) is evaluated on the implementation's own output for every cut. distinct_nontrivial = distinct "
-            "(sub-command, configuration, flags/status, pair-shape) classes." % (L, L, L, ", length 7 under 2 configurations" if ctx.thorough() else "",
+            "(sub-command, configuration, flags/status, pair-shape) classes." % (L, L, L, ", length 7 under one configuration per string" if ctx.thorough() else "",
                                                                                    7 if ctx.thorough() else 6))
     return vf.standard_epilogue(ctx, pr, "make Props/Properties_C15.vo (coqc 8.16.1) + ./check C15", rule,
                                 ["bytes are < 256 (the drivers only produce bytes)",
